@@ -52,6 +52,12 @@ impl<Op: Operator> Operator for Probe<Op> {
     }
 }
 
+impl<Op: renoir::operator::source::Source> renoir::operator::source::Source for Probe<Op> {
+    fn replication(&self) -> renoir::Replication {
+        self.prev.replication()
+    }
+}
+
 /// `setup` through a fake single-replica network, then pull `next()` until `Terminate`; every
 /// output is recorded with the index of the last upstream element pulled before it was returned.
 pub fn drive<Op: Operator>(
